@@ -36,6 +36,7 @@ Proof. vm_compute. split; reflexivity. Qed.
 (* the guard the tree was first found with (finding F5) is NOT equivalent *)
 Theorem C13_truncated_guard_refuted : exists st, xsum32_g true st <> xsum32_g false st.
 Proof. exists f5_state. exact truncated_guard_differs. Qed.
+Print Assumptions C13_truncated_guard_refuted.
 
 (* ==== the same property for the code AS TRANSLATED from internal/xxh32/xxh32zero.go on this run ====
    GenXXHBody.v is regenerated from the Go source by gen/body.go (statement by statement, over the Go
